@@ -117,7 +117,11 @@ def gen_attr_value(R, row, objs_so_far, lfi, hc=False):
                 lo, hi = {12: (-128, 127), 13: (-32768, 32767), 14: (-2**31, 2**31 - 1), 15: (0, 255), 16: (0, 65535),
                           17: (0, 2**32 - 1), 18: (0, 2**30 - 1), 0: (-2**31, 2**31 - 1)}[rc]
                 v = R.choice([lo, hi, 0, 1, R.randrange(lo, hi + 1), R.randrange(max(lo, -200), min(hi, 200) + 1)])
+                if abs(v) < 2**31 and R.random() < 0.1:
+                    return R.choice([np.int64, np.int32 if -2**31 <= v < 2**31 else np.int64, np.float64])(v)   # numpy scalars are numbers too
                 return R.choice([v, v, float(v)]) if abs(v) < 2**50 else v
+            if R.random() < 0.1:
+                return R.choice([np.float64(2.5), np.float32(-3.75), np.float64(-0.0), np.int32(7), np.uint8(200), np.float32(0.0)])
             return R.choice([0.0, -0.0, 1.0, 2.5, -3.75, 1e300, float('inf'), 7, -12, 2**40, R.random() * 1000,
                              float(R.randrange(-10**6, 10**6)) / 64])
         if cls == 'TextAttribute':
@@ -189,7 +193,9 @@ def gen_data(R, dtype, width, n, index_like=None):
         else:
             info = np.iinfo(dtype)
             step = R.choice([1, 2, 3])
-            start = int(info.min) + R.randrange(0, 5) if index_like != 'decreasing' else min(int(info.max), 100 + 3 * n)
+            if (n + 6) * step > int(info.max) - int(info.min):
+                step = 1                       # the whole ramp must fit the dtype, or it would not be uniform
+            start = int(info.min) + R.randrange(0, 5) if index_like != 'decreasing' else min(int(info.max), int(info.min) + 6 + 3 * n)
             if index_like == 'decreasing':
                 step = -step
             vals = [start + i * step for i in range(n)]
@@ -236,19 +242,19 @@ def layout_variant(R, arr, variant=None):
 def gen_spec(R, *, n_lf=None, hc=False, small=False, kinds=None, vrl=None, rows=None, with_index=None, fastpath=False):
     spec = {'sul': {'set_identifier': R.choice(['MAIN-STORAGE-UNIT', 'A', 'X' * 60, 'SET-1']) if hc else
                     R.choice(['MAIN-STORAGE-UNIT', 'A', 'X' * 60, 'some set id', '']),
-                    'sul_sequence_number': R.choice([1, 1, 2, 9999, R.randrange(1, 9999)]),
+                    'sul_sequence_number': R.choice([1, 1, 2, 9999, 0, R.randrange(1, 9999)]),
                     'max_record_length': vrl or R.choice([8192, 8192, 16384, 20, 22, 32, 64, 100, 256, 1024,
                                                          R.randrange(20, 600, 2)])},
             'hc': hc, 'lfs': []}
     n_lf = n_lf or (1 if fastpath else R.choice([1, 1, 1, 2, 3]))
     for li in range(n_lf):
         tag = f'LF{li}' if n_lf > 1 else None
-        lf = {'fh_id': R.choice(['FILE-HEADER', 'HDR', 'H' * 65, eflr.rstr(R, R.randrange(1, 66))]),
+        lf = {'fh_id': R.choice(['FILE-HEADER', 'HDR', 'H' * 65, eflr.rstr(R, R.randrange(1, 66))] + ([''] if not hc else [])),
               'fh_sequence_number': R.choice([1, 2, 9999999999, R.randrange(1, 10**10)]),
               'fh_identifier': R.choice(['0', 'X', '9']), 'objects': [], 'noformat': [], 'set_tag': tag}
         objs = lf['objects']
         nframes = (R.choice([1, 1, 2]) if not small else 1) if not fastpath else 1
-        nrows = rows or R.choice([1, 2, 3, 5, 17] if not small else [1, 2, 3])
+        nrows = rows or R.choice([1, 2, 3, 5, 17, 17, 130] if not small else [1, 2, 3])      # 130: frame numbers beyond one UVARI byte
         plan = []
         n_origin = R.choice([1, 1, 2])
         for k in range(n_origin):
@@ -339,7 +345,7 @@ def gen_spec(R, *, n_lf=None, hc=False, small=False, kinds=None, vrl=None, rows=
                             o['attrs'][pyname] = {'v': v, 'units': R.choice([None, None, 'm', 's']) ,
                                                   'route': R.choice(['plain', 'dict', 'setup', 'later'])}
             if kind == 'origin':
-                o['attrs']['file_set_number'] = {'v': R.randrange(1, 2**30) if not hc else None, 'units': None,
+                o['attrs']['file_set_number'] = {'v': R.choice([R.randrange(1, 2**30), R.randrange(1, 2**30), 0, 127, 128, 16383, 16384]) if not hc else None, 'units': None,
                                                  'route': 'plain'}
                 if hc:
                     del o['attrs']['file_set_number']
@@ -722,6 +728,18 @@ def run_framing_stream(prop, tier, chk, model, bres):
                 continue
             reqs.append(tapped_file_req(spec, res['records']))
             cases.append((i, spec, res))
+            if i % 3 == 0 and res.get('built') is not None:
+                # the same DLISFile written a second time: the framing of the second file is held to the same standard
+                res2 = write(spec, tmp, built=res['built'], fname='again.dlis')
+                chk.case('whole-file-second-write', nontrivial_key=('again', i))
+                chk.count(f'whole-file-second-write:{res2["status"]}')
+                if res2['status'] == 'ok':
+                    reqs.append(tapped_file_req(spec, res2['records']))
+                    cases.append((f'{i} (second write of the same DLISFile)', spec, res2))
+                elif prop == 'C15':
+                    chk.fail('whole-file:second-write-raises', {'spec': describe(spec), 'index': i},
+                             f"the second write of the same DLISFile raised {res2['error']}")
+            res['built'] = None
         if bres.ok:
             reps = model.ask(reqs)
             rd = []
